@@ -230,3 +230,4 @@ func progJ() schedProgram {
 		return bodies, check
 	}}
 }
+
